@@ -14,14 +14,20 @@ Definition th_code (nt : net) (st : nstate) (t : thread) : Z :=
   | _ => if t_enabled nt st t then 0 else 1
   end.
 
-Definition is_saver (t : thread) : bool := match t_kind t with KSaver => true | _ => false end.
+Definition is_saver (t : thread) : bool := match t_kind t with KSaver _ => true | _ => false end.
+(* rows on disk: a rechunking saver writes everything in the final flush *)
+Definition rows_saved (t : thread) : nat :=
+  match t_kind t with
+  | KSaver true => if t_closed t && negb (t_excrec t) then length (t_rows t) else 0
+  | _ => length (t_rows t)
+  end.
 Definition is_main (t : thread) : bool := match t_kind t with KMain _ => true | _ => false end.
 
 Definition mb_obs (m : mbox) : list Z :=
   [Z.of_nat (length (mb_box m)); b2z (mb_closed m); b2z (mb_killed m); b2z (mb_fkilled m)].
 Definition saver_obs (t : thread) : list Z :=
   [b2z (t_closed t); b2z (t_excrec t); match t_got t with Some c => Z.of_nat c | None => 0 end;
-   Z.of_nat (length (t_rows t))].
+   Z.of_nat (rows_saved t)].
 
 (* [one code per thread] ++ [len(_mailbox); closed; killed; force_killed per mailbox]
    ++ [rows the consumer has] ++ [closed; exception recorded; got_exception code; chunks saved per saver] *)
